@@ -16,6 +16,11 @@ and `pipeline.join()`.  Statements that contain none of these ("pure": local
 computation, logging, tensor preprocessing) are dropped, so harmless rewrites
 do not change the skeleton.
 
+Data provenance (readers): the frame dict's `frame_idx` must derive from the loop
+index / `lf.frame_idx`, its `image` and `orig_size` from the frame just read (local
+names are tracked through re-assignments), its `video_idx` must be 0 (video) /
+`self.labels.videos.index(lf.video)` (labels).
+
 Fail-closed: any use of the queue, the data source, the done flag, `yield`, or
 a statement kind outside the recognised fragment raises SkelError with the
 source location; the caller then treats the static tie as broken.
@@ -78,6 +83,7 @@ class _Ctx:
         self.loop_var = None              # index variable of the reading loop
         self.lf_var = None                # labels: variable holding self.labels[idx]
         self.dicts = {}                   # Name -> ast.Dict (single simple assignment)
+        self.derived = set()              # reader: local names whose current value derives from the frame just read
         self.frame_var = None             # consumer: variable assigned from get()
         self.done_var = None
         self.acc_var = None
@@ -203,6 +209,26 @@ def _classify_put(ctx, call, node):
             and isinstance(m.value, ast.Name) and m.value.id == ctx.lf_var)
     if not ok:
         _err(node, "frame_idx of the frame dict is not derived from the loop index / the labelled frame read")
+    # its image and its orig_size must derive from the frame just read (each frame its OWN size), its
+    # video_idx from the labelled frame read (labels) / be the constant 0 (video)
+    def from_read(v):
+        return _contains(v, lambda m: isinstance(m, ast.Name) and m.id in ctx.derived)
+    if not from_read(keys["image"]):
+        _err(node, "image of the frame dict is not derived from the frame just read")
+    if not from_read(keys["orig_size"]):
+        _err(node, "orig_size of the frame dict is not derived from the frame just read")
+    if "video_idx" in keys:
+        vi = keys["video_idx"]
+        if ctx.role == "video":
+            okv = _contains(vi, lambda m: isinstance(m, ast.Constant) and m.value == 0 and not isinstance(m.value, bool)) \
+                and not _contains(vi, lambda m: isinstance(m, ast.Name) and m.id != "torch")
+        else:
+            okv = ctx.lf_var is not None and _contains(
+                vi, lambda m: isinstance(m, ast.Attribute) and m.attr == "video"
+                and isinstance(m.value, ast.Name) and m.value.id == ctx.lf_var) and \
+                _contains(vi, lambda m: _is_attr_chain(m, ["self", "labels", "videos"]))
+        if not okv:
+            _err(node, "video_idx of the frame dict is not 0 (video) / the index of the labelled frame's video (labels)")
     ctx.frame_keys_nonnone.append(set(keys) - none_keys)
     return ("atom", "APutFrame")
 
@@ -217,6 +243,15 @@ def _simple(ctx, node, in_acc_if):
     targets = node.targets if isinstance(node, ast.Assign) else \
         [node.target] if isinstance(node, (ast.AugAssign, ast.AnnAssign)) else []
     out = []
+    # --- provenance of local names (readers): derived from the frame just read, or not
+    if ctx.role in ("video", "labels") and isinstance(node, ast.Assign) and len(targets) == 1 \
+            and isinstance(targets[0], ast.Name) and value is not None:
+        srcs = ctx.derived | ({ctx.lf_var} if ctx.lf_var else set())
+        if (ctx.source is not None and ctx.mentions_source_read(node)) or \
+                _contains(value, lambda m: isinstance(m, ast.Name) and m.id in srcs):
+            ctx.derived.add(targets[0].id)
+        else:
+            ctx.derived.discard(targets[0].id)
     # --- yield
     if _contains(node, lambda m: isinstance(m, ast.Yield)):
         if not (isinstance(node, ast.Expr) and isinstance(node.value, ast.Yield)):
